@@ -16,6 +16,20 @@ Reading of the source
   unless the raise is the only way out of an else-branch, in which case the branch yields `default_on_raise`;
 * `int(e)` truncates toward zero, `math.ceil`/`np.ceil` and `//` are exact on rationals, `round` is not accepted;
 * float literals are the exact doubles.
+
+Rules added for the table-updating functions of cnvlib/reference.py and CopyNumArray.expect_flat_log2 (round 4):
+* BOOLEAN parameters (`bools=`): a flag or an elementwise mask; its truthiness is `= true`; masks combine with `|`,
+  `&`, `~` (read as or / and / not); a trailing `.values` on a mask is dropped;
+* `opaque=` maps the SOURCE TEXT of a sub-expression to the name of a Boolean parameter: the model takes that value as
+  an input (`sexes.get(cnarr.sample_id)`: the truthiness of the sample's recorded sex; `self.chr_x_filter(
+  diploid_parx_genome)`: the chromosome-class mask of the bin) -- what these expressions compute is modelled elsewhere;
+* `frame["col"]` (a string-constant subscript of a name) is the elementwise variable `frame_col`; `frame["col"] = e` /
+  `frame["col"] op= e` update it; `frame[mask, "col"] = e` / `op= e` and `arr[mask] = e` update it where the mask holds;
+* `np.zeros(..)` is the elementwise 0; `name.count("c")` (a one-character string) is the parameter `name_count_c`;
+* a `return a, b` yields a pair (`Rat × Rat`);
+* a function that ends without a `return` yields the final value of the variable named by `result=` (in-place update);
+* `params=` fixes the Lean signature (names and order) independently of the order of first use in the source; a variable
+  read beyond it leaves the function untranslated.
 """
 from __future__ import annotations
 
@@ -35,8 +49,14 @@ def _rat(x):
 
 
 class Fn:
-    def __init__(self, fn: ast.FunctionDef, given=(), absent=(), default_on_raise=None, rename=None, callees=None):
+    def __init__(self, fn: ast.FunctionDef, given=(), absent=(), default_on_raise=None, rename=None, callees=None,
+                 bools=(), opaque=None, result=None, params=None):
         self.callees = callees or {}
+        self.bools = set(bools) | set((opaque or {}).values())   # Boolean parameters (flags / elementwise masks)
+        self.opaque = dict(opaque or {})                          # source text -> Boolean parameter
+        self.result = result                                      # variable returned by a function without `return`
+        self.arity = None                                         # length of a returned tuple
+        self.fixed_params = list(params) if params else None      # the Lean signature, fixed by the extractor
         self.fn = fn
         self.given = set(given)      # optional parameters known to be supplied (not None)
         self.absent = set(absent)    # optional parameters known to be None
@@ -67,6 +87,9 @@ class Fn:
             # elementwise reading of `array[mask]`
             if isinstance(e.value, ast.Name) and isinstance(e.slice, ast.Name):
                 return self.expr(e.value, env)
+            col = self._column(e)
+            if col is not None:
+                return env[col] if col in env else self.param(col)
             raise Untranslatable("subscript " + ast.unparse(e))
         if isinstance(e, ast.UnaryOp):
             if isinstance(e.op, ast.USub):
@@ -123,6 +146,12 @@ class Fn:
                 return f"(if {self.cond(args[0], env)} then {self.expr(args[1], env)} else {self.expr(args[2], env)})"
             if f == "len" and len(args) == 1 and isinstance(args[0], ast.Name):
                 return self.param(args[0].id + "_len")
+            if f in ("np.zeros", "np.zeros_like"):
+                return _rat(0)
+            if isinstance(e.func, ast.Attribute) and e.func.attr == "count" and isinstance(e.func.value, ast.Name) \
+                    and len(args) == 1 and isinstance(args[0], ast.Constant) and isinstance(args[0].value, str) \
+                    and len(args[0].value) == 1 and args[0].value.isalnum() and not e.keywords:
+                return self.param(e.func.value.id + "_count_" + args[0].value)
             if f in ("math.ceil", "np.ceil") and len(args) == 1:
                 return f"((({self.expr(args[0], env)}).ceil : Int) : Rat)"
             if f in ("math.floor", "np.floor") and len(args) == 1:
@@ -158,7 +187,41 @@ class Fn:
             raise Untranslatable("call " + ast.unparse(e))
         raise Untranslatable(ast.unparse(e))
 
+    @staticmethod
+    def _column(e):
+        """`frame["col"]` -> the variable name `frame_col`"""
+        if isinstance(e, ast.Subscript) and isinstance(e.value, ast.Name) and isinstance(e.slice, ast.Constant) \
+                and isinstance(e.slice.value, str) and e.slice.value.isidentifier():
+            return e.value.id + "_" + e.slice.value
+        return None
+
+    def _boolish(self, e, env=None):
+        """an expression over Boolean parameters / opaque Boolean sub-expressions / locals holding a mask"""
+        env = env or {}
+        if ast.unparse(e) in self.opaque:
+            return True
+        if isinstance(e, ast.Name):
+            return env[e.id].startswith("MASK:") if e.id in env else e.id in self.bools
+        if isinstance(e, ast.Attribute) and e.attr == "values":
+            return self._boolish(e.value, env)
+        if isinstance(e, ast.BinOp) and isinstance(e.op, (ast.BitOr, ast.BitAnd)):
+            return self._boolish(e.left, env) and self._boolish(e.right, env)
+        if isinstance(e, ast.UnaryOp) and isinstance(e.op, ast.Invert):
+            return self._boolish(e.operand, env)
+        return False
+
     def cond(self, e, env):
+        if ast.unparse(e) in self.opaque:
+            return f"({self.param(self.opaque[ast.unparse(e)])} = true)"
+        if isinstance(e, ast.Attribute) and e.attr == "values" and self._boolish(e.value, env):
+            return self.cond(e.value, env)
+        if isinstance(e, ast.BinOp) and isinstance(e.op, (ast.BitOr, ast.BitAnd)) and self._boolish(e, env):
+            op = " ∨ " if isinstance(e.op, ast.BitOr) else " ∧ "
+            return "(" + self.cond(e.left, env) + op + self.cond(e.right, env) + ")"
+        if isinstance(e, ast.UnaryOp) and isinstance(e.op, ast.Invert) and self._boolish(e.operand, env):
+            return f"(¬ {self.cond(e.operand, env)})"
+        if isinstance(e, ast.Name) and e.id not in env and e.id in self.bools:
+            return f"({self.param(e.id)} = true)"
         if isinstance(e, ast.BoolOp):
             op = " ∧ " if isinstance(e.op, ast.And) else " ∨ "
             return "(" + op.join(self.cond(v, env) for v in e.values) + ")"
@@ -204,8 +267,27 @@ class Fn:
         return bool(stmts) and all(isinstance(s, (ast.Raise, ast.Expr)) for s in stmts) and any(
             isinstance(s, ast.Raise) for s in stmts)
 
+    def _masked_target(self, t, env):
+        """assignment targets of the table-updating functions: `frame["col"]` -> (frame_col, None);
+        `frame[mask, "col"]` -> (frame_col, mask); `arr[mask]` with a Boolean mask -> (arr, mask)"""
+        col = self._column(t)
+        if col is not None:
+            return col, None
+        if isinstance(t, ast.Subscript) and isinstance(t.value, ast.Name):
+            sl = t.slice
+            if isinstance(sl, ast.Tuple) and len(sl.elts) == 2 and isinstance(sl.elts[1], ast.Constant) \
+                    and isinstance(sl.elts[1].value, str) and sl.elts[1].value.isidentifier():
+                return t.value.id + "_" + sl.elts[1].value, self.cond(sl.elts[0], env)
+            if isinstance(sl, ast.Name) and env.get(sl.id, "").startswith("MASK:"):
+                return t.value.id, env[sl.id][5:]
+            if self._boolish(sl, env):
+                return t.value.id, self.cond(sl, env)
+        return None
+
     def block(self, stmts, env):
         if not stmts:
+            if self.result is not None:
+                return env[self.result] if self.result in env else self.param(self.result)
             raise Untranslatable("function falls off its end without a return")
         s, rest = stmts[0], stmts[1:]
         if isinstance(s, ast.Expr) and isinstance(s.value, ast.Constant):
@@ -213,6 +295,17 @@ class Fn:
         if isinstance(s, ast.Assert):
             return self.block(rest, env)
         if isinstance(s, ast.Return):
+            if s.value is None or (isinstance(s.value, ast.Constant) and s.value.value is None):
+                if self.result is None:
+                    raise Untranslatable("bare return")
+                return env[self.result] if self.result in env else self.param(self.result)
+            if isinstance(s.value, ast.Tuple):
+                if self.arity not in (None, len(s.value.elts)):
+                    raise Untranslatable("returns of different lengths")
+                self.arity = len(s.value.elts)
+                return "(" + ", ".join(self.expr(v, env) for v in s.value.elts) + ")"
+            if self.arity is not None:
+                raise Untranslatable("returns of different lengths")
             return self.expr(s.value, env)
         if isinstance(s, ast.Raise):
             if self.default_on_raise is None:
@@ -222,12 +315,23 @@ class Fn:
             t = s.targets[0]
             if isinstance(t, ast.Name):
                 # a mask (comparison) assigned to a name is kept as a condition
-                if isinstance(s.value, ast.Compare):
+                if isinstance(s.value, ast.Compare) or self._boolish(s.value, env):
                     env = dict(env)
                     env[t.id] = "MASK:" + self.cond(s.value, env)
                     return self.block(rest, env)
                 env = dict(env)
                 env[t.id] = self.expr(s.value, env)
+                return self.block(rest, env)
+            upd = self._masked_target(t, env)
+            if upd is not None:
+                var, mask = upd
+                env = dict(env)
+                new = self.expr(s.value, env)
+                if mask is None:
+                    env[var] = new
+                else:
+                    cur = env[var] if var in env else self.param(var)
+                    env[var] = f"(if {mask} then {new} else {cur})"
                 return self.block(rest, env)
             raise Untranslatable("assignment to " + ast.unparse(t))
         if isinstance(s, ast.AugAssign):
@@ -246,6 +350,14 @@ class Fn:
                 env = dict(env)
                 cur = self.expr(t.value, env)
                 env[t.value.id] = f"(if {mask[5:]} then ({cur} {op} {self.expr(s.value, env)}) else {cur})"
+                return self.block(rest, env)
+            upd = self._masked_target(t, env)
+            if upd is not None:
+                var, mask = upd
+                env = dict(env)
+                cur = env[var] if var in env else self.param(var)
+                new = f"({cur} {op} {self.expr(s.value, env)})"
+                env[var] = new if mask is None else f"(if {mask} then {new} else {cur})"
                 return self.block(rest, env)
             raise Untranslatable(ast.unparse(s))
         if isinstance(s, ast.If):
@@ -268,9 +380,23 @@ class Fn:
             raise Untranslatable("a mask escaped into an arithmetic position")
         sig = [self.rename.get(a.arg, a.arg) for a in self.fn.args.args]
         ordered = [p for p in sig if p in self.params] + [p for p in self.params if p not in sig]
+        if self.fixed_params is not None:
+            # the signature is fixed by the extractor (order of first use in the source must not matter); a variable
+            # the source uses beyond it makes the definition ill-formed, which the check reports
+            extra = [p for p in ordered if p not in self.fixed_params]
+            if extra:
+                raise Untranslatable("the source reads variables outside the fixed signature: " + ", ".join(extra))
+            ordered = list(self.fixed_params)
         # `2 ** x` parameters replace x itself when x is not otherwise used
         ps = " ".join(ordered)
-        head = f"def {lean_name} ({ps} : Rat) : Rat :=\n  {body}" if ordered else f"def {lean_name} : Rat :=\n  {body}"
+        if self.bools or self.arity:
+            bs = [p for p in ordered if p in self.bools]
+            rs = [p for p in ordered if p not in self.bools]
+            sigtxt = (f" ({' '.join(bs)} : Bool)" if bs else "") + (f" ({' '.join(rs)} : Rat)" if rs else "")
+            typ = " × ".join(["Rat"] * (self.arity or 1))
+            head = f"def {lean_name}{sigtxt} : {typ} :=\n  {body}"
+        else:
+            head = f"def {lean_name} ({ps} : Rat) : Rat :=\n  {body}" if ordered else f"def {lean_name} : Rat :=\n  {body}"
         doc = f"/-- {comment} -/\n" if comment else ""
         return doc + head, ordered
 
